@@ -288,3 +288,26 @@ def coq_nat_list(xs):
 def coq_q(fr):
     fr = Fraction(fr)
     return "(Q2Qc (%d # %d))" % (fr.numerator, fr.denominator)
+
+
+# ---------------------------------------------------------------- relation tables (Model/Grammar.v)
+def spec_table(spec, n):
+    """le[a][b] <-> a and b are clone points and the clone of a is an ancestor of, or equal to, the clone of b."""
+    le = [[False] * n for _ in range(n)]
+    if spec is not None:
+        for node in spec_nodes(spec):
+            below = node_points(node)
+            for a in node[0]:
+                for b in below:
+                    le[a][b] = True
+    return le
+
+
+def spec_root_reps(spec):
+    return [] if spec is None else [min(r[0]) for r in spec[0]]
+
+
+def coq_table(tab):
+    if not tab:
+        return "(@nil (list bool))"
+    return "[" + "; ".join("[" + "; ".join("true" if v else "false" for v in row) + "]" for row in tab) + "]"
